@@ -2,6 +2,7 @@ package srvworld
 
 import (
 	"bytes"
+	"strings"
 	"encoding/binary"
 	"errors"
 	"fmt"
@@ -238,6 +239,8 @@ func (x *Exec) authExchange(c *Client, ui int, m *ref.Msg, st *Step, method int,
 		c.freshChallenge = false
 		nonceAge := time.Since(c.NonceAt)
 		nonceMinutes := time.Now().Unix()/60 - c.NonceAt.Unix()/60
+		x.nonceFresh = nonceMinutes <= 60 && nonceAge <= 60*time.Minute
+		x.nonceStale = nonceMinutes > 60
 		rq = x.exchange(c, raw, method, nil, nil, what)
 		if x.stop {
 			return rq, before, false
@@ -646,12 +649,18 @@ func (x *Exec) opCreatePermission(st *Step) {
 	for _, p := range st.P {
 		m.Add(ref.AttrXORPeerAddress, xorPeerValue(p, m.TxID))
 	}
+	lost := st.RespLost && st.Defect == "" && !c.Stream
+	if lost {
+		x.w.srvSock.FailWrites(1)
+	}
 	rq, _, proceed := x.authExchange(c, ui, m, st, ref.MethodCreatePermission, "CreatePermission")
+	x.w.srvSock.FailWrites(0)
 	if !proceed {
 		return
 	}
 	a := x.m.Allocs[c.Idx]
 	success := rq.resp != nil && rq.resp.Class == ref.ClassSuccess
+	lostResp := lost && rq.resp == nil
 	user := Users[ui].Name
 	refuse, props := "", []string{"X00"}
 	switch {
@@ -682,6 +691,20 @@ func (x *Exec) opCreatePermission(st *Step) {
 		x.St.inc("createpermission-refused")
 
 		return
+	}
+	if lostResp {
+		// the response was lost on the way out: the client cannot know whether the request took
+		// effect; both outcomes are acceptable, so take the library's word for it and go on
+		x.St.inc("response-lost:createpermission")
+		switch {
+		case x.nonceStale:
+			return // what got lost was the 438 challenge: the request itself was never processed
+		case !x.nonceFresh:
+			x.resync() // nonce age inside the unjudged band
+
+			return
+		}
+		success = true // processed with a valid nonce and admissible: it took effect
 	}
 	if !success {
 		x.fail([]string{"X00"}, "createpermission-unexpectedly-refused", "admissible CreatePermission answered with %s", respDesc(rq.resp))
@@ -725,12 +748,58 @@ func (x *Exec) opChannelBind(st *Step) { //nolint:cyclop
 	m := &ref.Msg{Method: ref.MethodChannelBind, Class: ref.ClassRequest, TxID: c.nextTx()}
 	m.Add(ref.AttrChannelNumber, ref.ChannelNumberAttr(num))
 	m.Add(ref.AttrXORPeerAddress, xorPeerValue(pi, m.TxID))
+	lost := st.RespLost && st.Defect == "" && !c.Stream
+	if lost {
+		x.w.srvSock.FailWrites(1)
+	}
 	rq, before, proceed := x.authExchange(c, ui, m, st, ref.MethodChannelBind, "ChannelBind")
+	x.w.srvSock.FailWrites(0)
 	if !proceed {
 		return
 	}
 	a := x.m.Allocs[c.Idx]
 	success := rq.resp != nil && rq.resp.Class == ref.ClassSuccess
+	if lost && rq.resp == nil {
+		// response lost on the way out: accept either outcome (see CreatePermission)
+		x.St.inc("response-lost:channelbind")
+		switch {
+		case x.nonceStale:
+			return // the lost response was the 438 challenge
+		case !x.nonceFresh:
+			x.resync()
+
+			return
+		}
+		if !strings.Contains(x.libListing(c), fmt.Sprintf("%#x->%s", num, canonAddr(pa.String()))) {
+			// no binding: the request had no effect - or the server undid the binding after the
+			// failed write and kept the permission it had refreshed; the client cannot tell
+			if a != nil && a.User == Users[ui].Name {
+				libP, _ := splitListing(x.libListing(c))
+				_, had := a.Perms[canonIP(pa.IP)]
+				for _, lp := range libP {
+					if lp == canonIP(pa.IP) && !had && familyOfIP(pa.IP) == a.Family && !x.w.deniedAt(x.opStart, c.Idx, pa.IP) {
+						a.Perms[lp] = x.opStart.Add(x.w.cfg.permTimeout())
+						a.PermInstalls[lp]++
+					}
+				}
+			}
+
+			return
+		}
+		if a == nil || a.User != Users[ui].Name || !ref.ValidChannel(num) {
+			return // the cross-check after the step judges a binding that must not exist
+		}
+		if ch, ok := a.Chans[num]; ok && !sameUDP(ch.Peer, pa) {
+			return
+		}
+		if on, ch := a.chanByPeer(pa); ch != nil && on != num {
+			return
+		}
+		if familyOfIP(pa.IP) != a.Family || x.w.deniedAt(x.opStart, c.Idx, pa.IP) {
+			return
+		}
+		success = true
+	}
 	user := Users[ui].Name
 	switch {
 	case a == nil:
